@@ -17,7 +17,7 @@ IMPL = ('c08', 'impl_conc')
 COUNTS = dict(quick=1500, thorough=30000)
 
 # slots of the recorded callbacks
-PREP, COND, BEFORE, AFTER, FIN = 0, 1, 2, 3, 4
+PREP, COND, BEFORE, AFTER, FIN, EXIT, ENTER = 0, 1, 2, 3, 4, 5, 6
 # actions of a callback after it has been resumed
 A_NONE, A_RAISE, A_TRIG, A_REMOVE = 0, 1, 2, 3
 # exception codes shared with the model
@@ -158,6 +158,15 @@ class Harness(object):
                 h.results[x] = [x] + res
                 h.moves += 1
             states[s_t] = dict(name='s%d' % s_t, timeout=100, on_timeout=[on_tmo])
+        sxmap = {EXIT: {}, ENTER: {}}
+        if any(c.get('exit') is not None or c.get('enter') is not None for e in case['events'] for c in e['cands']):
+            def state_rec(slot):
+                async def rec(event_data):
+                    cb = sxmap[slot].get(id(event_data.transition))
+                    if cb is not None:
+                        await cb()
+                return rec
+            states = [dict(name=n, on_exit=[state_rec(EXIT)], on_enter=[state_rec(ENTER)]) for n in states]
         self.current = {}
         self.results = {}
         self.machine = cls(model=None if one_call else self.models,
@@ -183,6 +192,14 @@ class Harness(object):
                     kw['after'] = [self.make_cb(ev, j, AFTER, c['after'])]
                 dest = None if c['dest'] is None else 's%d' % c['dest']
                 self.machine.add_transition('e%d' % ev, ['s%d' % s for s in e['srcs']], dest, **kw)
+                if dest is not None and (c.get('exit') is not None or c.get('enter') is not None):
+                    cbs = {EXIT: None if c.get('exit') is None else self.make_cb(ev, j, EXIT, c['exit']),
+                           ENTER: None if c.get('enter') is None else self.make_cb(ev, j, ENTER, c['enter'])}
+                    for src in e['srcs']:
+                        tobj = self.machine.events['e%d' % ev].transitions['s%d' % src][-1]
+                        for slot in (EXIT, ENTER):
+                            if cbs[slot] is not None:
+                                sxmap[slot][id(tobj)] = cbs[slot]
 
     async def quiesce(self):
         """let the loop run until nothing has moved for a while"""
@@ -320,7 +337,9 @@ def enc(case):
     evs = []
     for e in case['events']:
         cands = [[opt_(c['prep'], enc_act), opt_(c['cond'], lambda x: [enc_act(x[0]), bool(x[1])]),
-                  opt_(c['before'], enc_act), opt_(c['dest']), opt_(c['after'], enc_act)] for c in e['cands']]
+                  opt_(c['before'], enc_act), opt_(c['dest']), opt_(c['after'], enc_act),
+                  opt_(c.get('exit') if c['dest'] is not None else None, enc_act),
+                  opt_(c.get('enter') if c['dest'] is not None else None, enc_act)] for c in e['cands']]
         evs.append([e['model'], list(e['srcs']), cands, opt_(e['fin'], enc_act)])
     tmo = case.get('tmo')
     return [case['cls'], case['queued'], case['nstates'], list(case['models']), evs,
@@ -373,8 +392,8 @@ def all_cbs(e):
     """(holder dict, key) of every callback slot of event definition e"""
     out = []
     for c in e['cands']:
-        for k in ('prep', 'cond', 'before', 'after'):
-            if c[k] is not None:
+        for k in ('prep', 'cond', 'before', 'exit', 'enter', 'after'):
+            if c.get(k) is not None:
                 out.append((c, k))
     if e['fin'] is not None:
         out.append((e, 'fin'))
@@ -392,7 +411,7 @@ def set_act(holder, key, a):
         holder[key] = a
 
 
-def gen_event(rng, nstates, nmodels, model=None, fin=True):
+def gen_event(rng, nstates, nmodels, model=None, fin=True, sx=False):
     m = rng.randrange(nmodels) if model is None else model
     if rng.random() < 0.7:
         srcs = list(range(nstates))
@@ -405,6 +424,11 @@ def gen_event(rng, nstates, nmodels, model=None, fin=True):
                           before=[A_NONE] if rng.random() < 0.5 else None,
                           dest=None if rng.random() < 0.1 else rng.randrange(nstates),
                           after=[A_NONE] if rng.random() < 0.4 else None))
+    for c in cands:
+        # coroutine on_exit / on_enter callbacks: state callbacks are per state, so either every state-changing
+        # transition of the case has both (suspending) or the states have none
+        c['exit'] = [A_NONE] if sx and c['dest'] is not None else None
+        c['enter'] = [A_NONE] if sx and c['dest'] is not None else None
     return dict(model=m, srcs=srcs, cands=cands, fin=[A_NONE] if fin else None)
 
 
@@ -418,7 +442,8 @@ def gen(rng, i, tier):
     # finalize_event is a machine-level list: either every event has a (suspending) finalize callback or the
     # list is empty -- a callback that returns without suspending would still take loop iterations (gather)
     fin = rng.random() < 0.55
-    events = [gen_event(rng, nstates, nmodels, m0 if same else None, fin) for _ in range(ntop)]
+    sx = i % 4 == 1
+    events = [gen_event(rng, nstates, nmodels, m0 if same else None, fin, sx) for _ in range(ntop)]
     for e in events:
         if not all_cbs(e):
             e['cands'][0]['before'] = [A_NONE]
@@ -430,7 +455,7 @@ def gen(rng, i, tier):
         if not slots:
             continue
         h, k = rng.choice(slots)
-        events.append(gen_event(rng, nstates, nmodels, None, fin))
+        events.append(gen_event(rng, nstates, nmodels, None, fin, sx))
         set_act(h, k, [A_TRIG, len(events) - 1])
     # raising callbacks, remove_model
     for e in events:
@@ -517,6 +542,10 @@ def in_envelope(case):
     if len({e['fin'] is None for e in case['events']}) > 1:
         return False
     tmo = case.get('tmo')
+    cands = [c for e in case['events'] for c in e['cands'] if c['dest'] is not None]
+    if any(c.get('exit') is not None or c.get('enter') is not None for c in cands):
+        if tmo or any(c.get('exit') is None or c.get('enter') is None for c in cands):
+            return False
     if tmo:
         m_t, s_t, x = tmo
         if case['protected'] or x in case['top'] or not (0 <= x < nev) or case['events'][x]['model'] != m_t:
@@ -553,6 +582,7 @@ RULE = ('cases = 2-4 concurrently awaited triggers (ensure_future) on 1-3 models
         'HierarchicalAsyncMachine (flat configurations, alternating; models handed to the constructor or registered by ONE '
         'add_model([...]) call after construction, alternating), queued False/True/"model", 2-3 states, every event '
         'with 1-2 transition candidates whose prepare / condition / before / after callbacks and the finalize callback '
+        '(in every 4th case also coroutine on_exit / on_enter callbacks of every state-changing transition) '
         'each suspend on a future owned by the harness; 0-2 further events are awaited from inside callbacks (own call '
         'chain), in 40% of the cases two or three of the top-level triggers are awaited one after another in the SAME '
         'asyncio task (the earlier one mostly failing: raising callback / event valid in no state; exception caught by '
@@ -622,6 +652,8 @@ def stats(case, obs, dist):
         inc('cases_with_triggers_awaited_in_one_task')
     if case.get('tmo'):
         inc('cases_with_timeout_state')
+    if any(c.get('exit') is not None for e in case['events'] for c in e['cands']):
+        inc('cases_with_coroutine_on_exit_on_enter')
     inc('nested_triggers', len(case['events']) - len(case['top']))
     if st is None:
         inc('undecodable')
@@ -642,6 +674,8 @@ def stats(case, obs, dist):
                 seen_c.add(c)
                 if pending_slot.get(c) == FIN:
                     inc('cancelled_inside_finalize')
+                if pending_slot.get(c) in (EXIT, ENTER):
+                    inc('cancelled_inside_on_exit_or_on_enter')
         if case.get('tmo') and s[0] == 1 and any(case['tmo'][2] in r[1] for r in s[5]):
             inc('timeout_triggered_event_registered_in_async_tasks')
         if case.get('tmo') and case['tmo'][2] in s[2]:
@@ -698,6 +732,14 @@ def oracle(case, obs):
             order = [e for e in started if e in firsts]
             if order != firsts:
                 return 'queued: events are not processed in arrival order'
+    # nothing of an event runs after its (unqueued, top-level) trigger has returned: no detached continuation
+    if case['queued'] == 0:
+        returned = set()
+        for s in st:
+            for it in s[1]:
+                if it[0] in (0, 1, 2) and it[1] in returned:
+                    return 'returned: a callback of event %d ran after its trigger had returned' % it[1]
+            returned.update(d[0] for d in s[3])
     # cancellation
     pending_slot = {}
     cancelled_in_body = {}
@@ -811,6 +853,12 @@ def small_programs(tier):
                                   dict(model=0, srcs=[1], cands=[_cand(prep=N, dest=2)], fin=None),
                                   dict(model=0, srcs=[1], cands=[_cand(before=N, dest=0, after=N)], fin=None)],
                           top=[0, 1], protected=[], tmo=[0, 1, 2]))
+    for cls in (0, 1):
+        # suspension points inside on_exit / on_enter: an event cancelled there sets no state and enters nothing
+        progs.append(dict(cls=cls, queued=0, nstates=3, models=[0],
+                          events=[dict(model=0, srcs=[0, 1, 2], cands=[dict(_cand(dest=1), exit=N, enter=N)], fin=None),
+                                  dict(model=0, srcs=[0, 1, 2], cands=[dict(_cand(dest=2), exit=N, enter=N)], fin=None)],
+                          top=[0, 1], protected=[]))
     if tier == 'thorough':
         for queued in (0, 1, 2):
             progs.append(dict(cls=0, queued=queued, nstates=3, models=[0, 0],
